@@ -78,6 +78,11 @@ func (c *Ctx) tlPrimitives() {
 			continue
 		}
 		b, e := thresholds(f)
+		// the reader may name both special first bytes (254 long form, 255 invalid) or only one of them: with
+		// "below 254 is the short form" the other one is what remains
+		if s.name == "decodeLength" && fmt.Sprint(b) == fmt.Sprint(s.bounds) && (fmt.Sprint(e) == "[255]" || fmt.Sprint(e) == "[254]") {
+			e = s.eqs
+		}
 		c.check(fmt.Sprint(b) == fmt.Sprint(s.bounds) && fmt.Sprint(e) == fmt.Sprint(s.eqs), R, s.rel+"."+s.name+" short/long threshold", f.Pos(),
 			"length < 254 uses the 1-byte form, 254 is the escape marker",
 			fmt.Sprintf("%s.%s separates short and long byte-string lengths at %v (equality markers %v); the TL encoding requires the 1-byte form for length < 254 and the 0xfe escape from 254 on (expected bounds %v, markers %v)", s.rel, s.name, b, e, s.bounds, s.eqs))
